@@ -222,6 +222,20 @@ func (w *responseWriter) doWrite(p []byte) (int, error) {
 	return n, nil
 }
 
+// wellFormedContentLength reports whether the values of a Content-Length field are all the
+// same decimal number (the check WriteHeader applies).
+func wellFormedContentLength(vals []string) bool {
+	for _, v := range vals {
+		if v != vals[0] {
+			return false
+		}
+		if _, err := strconv.ParseUint(v, 10, 63); err != nil {
+			return false
+		}
+	}
+	return true
+}
+
 func (w *responseWriter) writeHeader(status int) error {
 	var headerFields []qlog.HeaderField // only used for qlog
 	var headers bytes.Buffer
@@ -260,6 +274,11 @@ func (w *responseWriter) writeHeader(status int) error {
 		// A 1xx response doesn't carry a Content-Length (section 8.6 of RFC 9110), the standard library omits it as well.
 		// The value set by the handler is only validated once the final status is written.
 		if status < 200 && strings.EqualFold(k, "Content-Length") {
+			continue
+		}
+		// The map is serialized when the response is flushed, which can be later than the check in
+		// WriteHeader: a malformed Content-Length the handler set in between is dropped as it is there.
+		if status >= 200 && strings.EqualFold(k, "Content-Length") && !wellFormedContentLength(v) {
 			continue
 		}
 		for index := range v {
